@@ -18,6 +18,8 @@ pub mod state;
 pub mod to_svg;
 pub mod traits;
 pub mod transform;
+#[cfg(packing_verif)]
+pub mod verif;
 pub mod wallpaper;
 
 pub use crate::basis::*;
